@@ -155,7 +155,7 @@ PLANS = {
     'C01': dict(
         rule=RULE_B + RULE_A + 'non-trivial = at least one acquisition or wait of the execution slept, or a try-lock failed (real contention on the mutex).',
         groups=[
-            G('mu_mix', 'c-plain', 'B', 14, 7000, owners=mu_mix_owners, thorough=50000),
+            G('mu_mix', 'c-plain', 'B', 14, 16000, owners=mu_mix_owners, thorough=60000),
             G('mu_mix', 'c-asan', 'B', 2, 1200, owners=mu_mix_owners),
             G('mu_mix', 'c-plain', 'A', 4, 1500, owners=mu_mix_owners, thorough=40000),
             G('mu_mix', 'cpp-plain', 'B', 8, 20000, owners=mu_mix_owners, tier='thorough', thorough=20000),
